@@ -22,6 +22,7 @@ REAL_VS_STUB = {
 }
 
 SDE = 1234567890
+SDE_CHOICES = ["1234567890", "0", "1", "2147483647", "1700000000", "00", "12abc", "abc"]
 OPTS = ["-string", "-fnames", "-unique-names", "-promiscuous", "-nomangle", "-do-module", "-true-names", "-refcount", "-assert"]
 LOCALES = [None, "C", "POSIX", "C.UTF-8", "de_DE.UTF-8", "tr_TR.UTF-8"]
 TZS = [None, "UTC", "Asia/Tokyo", "America/New_York", ":/nonexistent"]
@@ -38,6 +39,29 @@ def job_from_spec(spec):
         rng = Rng(spec["hseed"])
         text, _ = hdr_gen.gen_header(rng, "g", spec["n_classes"], overload_heavy=True, n_macros=spec.get("n_macros", 5), n_funcs=3)
         return [("g", common.igate_job("g", {"g.h": text}, ["g.h"], be, opts=opts))]
+    if spec["kind"] == "imports":
+        # library "base" publishes same-named classes in different namespaces; library "user" reaches them through -I
+        rng = Rng(spec["hseed"])
+        nss = ["inventory", "menu", "zoo", "alpha", "omega"][:spec["n_ns"]]
+        simple = ["Item", "Node", "Entry"][:spec["n_simple"]]
+        base = ["#ifndef BASE_H", "#define BASE_H"]
+        for ns in rng.shuffle(nss):
+            base.append("namespace %s {" % ns)
+            for sn in simple:
+                base += ["class %s {" % sn, "__published:", "  %s();" % sn, "  int get_%s_%s() const;" % (ns, sn.lower()), "};"]
+            base.append("}")
+        base.append("#endif")
+        user = ["#ifndef USER_H", "#define USER_H", '#include "base.h"']
+        n = 0
+        for ns in rng.shuffle(nss):
+            for sn in simple:
+                user += ["class U%d : public %s::%s {" % (n, ns, sn), "__published:", "  U%d();" % n,
+                         "  void take(const %s::%s &other, %s::%s *ptr = nullptr);" % (ns, sn, rng.choice(nss), sn), "};"]
+                n += 1
+        user.append("#endif")
+        files = {"base/base.h": "\n".join(base) + "\n", "user/user.h": "\n".join(user) + "\n"}
+        return [("base", common.igate_job("base", files, ["base.h"], be, opts=opts, srcdir="src/base")),
+                ("user", common.igate_job("user", files, ["user.h"], be, opts=opts, srcdir="src/user", incs=["src/base"]))]
     if spec["kind"] == "pipeline":
         libs = common.libs_fixture()
         steps = []
@@ -52,21 +76,22 @@ def job_from_spec(spec):
     raise ValueError(spec)
 
 
-def gen_env(rng, first=False):
+def gen_env(rng, first=False, sde=None):
+    sde = SDE if sde is None else sde
     if first:
-        return {"heap": None, "aslr": True, "clock": [1000000000, 1], "sde": SDE, "junk": 0, "tz": None, "lang": None,
+        return {"heap": None, "aslr": True, "clock": [1000000000, 1], "sde": sde, "junk": 0, "tz": None, "lang": None,
                 "lc_all": None, "lc_numeric": None, "stale": False, "stdin": "null", "home": None}
     return {
         "heap": rng.range(1, 1 << 30) if rng.chance(3, 4) else None,
         "aslr": rng.chance(2, 3),
         "clock": [rng.range(1, (1 << 31) - 2), rng.choice([0, 1, 1, 60, 86400, 1000000])],
-        "sde": SDE if rng.chance(3, 5) else None,
+        "sde": sde if rng.chance(3, 5) else None,
         "junk": rng.choice([0, 0, 1, 17, 200]),
         "tz": rng.choice(TZS),
         "lang": rng.choice(LOCALES),
         "lc_all": rng.choice(LOCALES),
         "lc_numeric": rng.choice(LOCALES),
-        "stale": rng.chance(1, 3),
+        "stale": rng.choice([False, False, False, "long", "short", "tail", "tail"]),
         "stdin": rng.choice(["null", "pipe"]),
         "home": rng.choice([None, "/nonexistent", "/tmp"]),
     }
@@ -80,23 +105,33 @@ def setup(ctx):
 
 def generate(ctx):
     plans = []
-    njobs, nexec = (40, 6) if ctx.tier == "quick" else (1500, 16)
+    njobs, nexec = (60, 6) if ctx.tier == "quick" else (1500, 16)
     for i in range(njobs):
         rng = run_rng(ctx.seed, NAME, i)
         be = rng.choice(common.BACKENDS + ["-python-native"])
         opts = rng.subset(OPTS, 1, 4)
         if "-fnames" in opts and "-true-names" in opts:
             opts.remove("-true-names")
-        k = i % 4
-        if k == 0:
+        k = i % 5
+        if k == 4:
+            spec = {"kind": "imports", "backend": "-python-native" if rng.chance(3, 4) else be, "opts": [o for o in opts if o != "-do-module"],
+                    "hseed": rng.next(), "n_ns": rng.range(2, 5), "n_simple": rng.range(1, 3)}
+        elif k == 0:
             spec = {"kind": "fixture-rich", "backend": be, "opts": opts}
         elif k == 3:
             spec = {"kind": "pipeline", "backend": be, "opts": [o for o in opts if o != "-do-module"]}
         else:
             spec = {"kind": "gen", "backend": be, "opts": opts, "hseed": rng.next(), "n_classes": rng.range(1, 10), "n_macros": rng.range(0, 12)}
-        envs = [gen_env(rng, first=True)] + [gen_env(rng) for _ in range(nexec - 1)]
+        sde = rng.choice(SDE_CHOICES)
+        envs = [gen_env(rng, first=True, sde=sde)] + [gen_env(rng, sde=sde) for _ in range(nexec - 1)]
         plans.append({"id": i, "spec": spec, "envs": envs})
     return plans
+
+
+def epoch_value(text):
+    """What atoi() makes of SOURCE_DATE_EPOCH."""
+    m = re.match(r"\s*([+-]?\d+)", str(text))
+    return int(m.group(1)) if m else 0
 
 
 def _env_dict(env):
@@ -113,7 +148,7 @@ def _env_dict(env):
     return e
 
 
-def run_once(steps, env, root):
+def run_once(steps, env, root, ref=None):
     """One execution of all steps of a job under one environment.  Returns
     (outputs {step/ch: bytes|None}, info)."""
     outputs, info = {}, {"outcomes": [], "clock_reads": 0, "heap": None, "ids": {}}
@@ -125,9 +160,19 @@ def run_once(steps, env, root):
     for name, job in steps:
         common.materialise(job, root)
         if env["stale"]:
-            for rel in job["outputs"].values():
+            for ch, rel in job["outputs"].items():
+                prev = (ref or {}).get("%s/%s" % (name, ch))
+                if env["stale"] == "tail" and prev:
+                    # an earlier run's output of the same length that differs only near its end
+                    data = prev.replace(b"$W", root.encode())
+                    tail = bytes((b ^ 0x01) if 48 <= b <= 122 else b for b in data[-12:])
+                    data = data[:-12] + tail
+                elif env["stale"] == "short":
+                    data = b"STALE OUTPUT OF AN EARLIER RUN\n"
+                else:
+                    data = b"STALE OUTPUT OF AN EARLIER RUN\n" * 20000
                 with open(os.path.join(root, rel), "wb") as f:
-                    f.write(b"STALE OUTPUT OF AN EARLIER RUN\n" * 20000)
+                    f.write(data)
         exe = build.tool("rel", job["tool"])
         argv = [exe] + job["argv"]
         if not env["aslr"]:
@@ -171,14 +216,16 @@ def execute(plan):
     steps = job_from_spec(plan["spec"])
     violations, harness_faults = [], []
     ref = None
+    ref_raw = None
     perturbed = 0
     heaps = set()
     clock_reads = 0
     clock_lo, clock_hi = None, None
     digests = []
+    sde_val = epoch_value(plan["envs"][0]["sde"])
     for xi, env in enumerate(plan["envs"]):
         root = runner.fresh_dir("rp-%d-%016x-%d" % (os.getpid(), fnv1a(json.dumps(plan["spec"], sort_keys=True)), xi))
-        outputs, info = run_once(steps, env, root)
+        outputs, info = run_once(steps, env, root, ref_raw)
         common.cleanup(root)
         clock_reads += info["clock_reads"]
         if any(not o.startswith("exit:0") for o in info["outcomes"]):
@@ -204,12 +251,12 @@ def execute(plan):
             if ch == "od":
                 first, _, rest = data.partition(b"\n")
                 ident = first
-                data2 = b"%d\n" % SDE + rest
+                data2 = b"%d\n" % sde_val + rest
             elif ch == "oc":
                 m = ID_LINE.search(data)
                 if m:
                     ident = m.group(1)
-                    data2 = data[:m.start(1)] + (b"%d" % SDE) + data[m.end(1):]
+                    data2 = data[:m.start(1)] + (b"%d" % sde_val) + data[m.end(1):]
                 else:
                     data2 = data
             else:
@@ -217,9 +264,9 @@ def execute(plan):
             if ident is not None:
                 info["ids"][step].setdefault("seen", {})[ch] = ident.decode("latin-1")
                 if env["sde"] is not None:
-                    if ident != b"%d" % SDE:
+                    if ident != b"%d" % sde_val:
                         violations.append({"property": "C14", "class": "identifier", "key": {"kind": "identifier-not-epoch", "channel": ch},
-                                           "msg": "job %s: SOURCE_DATE_EPOCH=%d but -%s carries identifier %r" % (plan["spec"], SDE, ch, ident)})
+                                           "msg": "job %s: SOURCE_DATE_EPOCH=%s but -%s carries identifier %r" % (plan["spec"], env["sde"], ch, ident)})
                 else:
                     vals = [str(v) for v in info["ids"][step]["clock"]]
                     if ident.decode("latin-1") not in vals:
@@ -238,6 +285,7 @@ def execute(plan):
         digests.append({k: (runner.sha(v) if v is not None else None) for k, v in sorted(norm.items())})
         if xi == 0:
             ref = norm
+            ref_raw = outputs
             continue
         if env["heap"] is not None or not env["aslr"] or env["junk"] or env["stale"] or env["sde"] is None:
             perturbed += 1
@@ -245,7 +293,7 @@ def execute(plan):
             if norm.get(key) != ref[key]:
                 step, ch = key.split("/")
                 kind = _classify(ref[key], norm.get(key))
-                if env["stale"] and norm.get(key) is not None and b"STALE OUTPUT" in norm[key]:
+                if env["stale"]:
                     kind = "stale"
                 tool = "interrogate_module" if step == "mod" else "interrogate"
                 backend = plan["spec"]["backend"]
@@ -281,7 +329,7 @@ def shrink(plan, fails):
                 break
     # neutralise environment dimensions one at a time
     if len(best["envs"]) == 2:
-        neutral = gen_env(None, first=True)
+        neutral = gen_env(None, first=True, sde=best["envs"][0]["sde"])
         for k in sorted(neutral):
             if best["envs"][1][k] != neutral[k]:
                 e2 = dict(best["envs"][1])
